@@ -183,3 +183,72 @@ pub fn nearest_f64(i: i128) -> f64 {
         r
     }
 }
+
+/// Exact decimal expansion of a finite double (every double is a dyadic rational m * 2^e, so its
+/// decimal expansion terminates).  Computed with a small base-1e9 big integer; independent of any
+/// float formatter or parser.
+pub fn exact_decimal(f: f64) -> Option<String> {
+    if !f.is_finite() {
+        return None;
+    }
+    let bits = f.to_bits();
+    let neg = (bits >> 63) != 0;
+    let exp_bits = ((bits >> 52) & 0x7ff) as i64;
+    let frac = bits & ((1u64 << 52) - 1);
+    let (m, e) = if exp_bits == 0 { (frac, -1074i64) } else { (frac | (1u64 << 52), exp_bits - 1075) };
+    if m == 0 {
+        return Some(if neg { "-0.0".into() } else { "0.0".into() });
+    }
+    // big = m as base-1e9 limbs (little endian)
+    let mut big: Vec<u32> = vec![];
+    let mut t = m;
+    while t > 0 {
+        big.push((t % 1_000_000_000) as u32);
+        t /= 1_000_000_000;
+    }
+    let mul_small = |big: &mut Vec<u32>, k: u32| {
+        let mut carry = 0u64;
+        for limb in big.iter_mut() {
+            let v = *limb as u64 * k as u64 + carry;
+            *limb = (v % 1_000_000_000) as u32;
+            carry = v / 1_000_000_000;
+        }
+        while carry > 0 {
+            big.push((carry % 1_000_000_000) as u32);
+            carry /= 1_000_000_000;
+        }
+    };
+    let digits_after_point: usize;
+    if e >= 0 {
+        for _ in 0..e {
+            mul_small(&mut big, 2);
+        }
+        digits_after_point = 0;
+    } else {
+        // m * 2^e = m * 5^k / 10^k with k = -e
+        for _ in 0..(-e) {
+            mul_small(&mut big, 5);
+        }
+        digits_after_point = (-e) as usize;
+    }
+    let mut s = String::new();
+    for (i, limb) in big.iter().rev().enumerate() {
+        if i == 0 {
+            s.push_str(&limb.to_string());
+        } else {
+            s.push_str(&format!("{:09}", limb));
+        }
+    }
+    let out = if digits_after_point == 0 {
+        format!("{s}.0")
+    } else {
+        let mut s = s;
+        while s.len() <= digits_after_point {
+            s.insert(0, '0');
+        }
+        let (ip, fp) = s.split_at(s.len() - digits_after_point);
+        let fp = fp.trim_end_matches('0');
+        format!("{ip}.{}", if fp.is_empty() { "0" } else { fp })
+    };
+    Some(if neg { format!("-{out}") } else { out })
+}
